@@ -622,6 +622,14 @@ func Select(arr, idx *Term) *Term {
 		if arr.Op == "constarr" {
 			return arr.Args[0]
 		}
+		if arr.Op == "ite" {
+			// both branches agree on this cell (typical after merging states that did not touch it)
+			a1 := Select(arr.Args[1], idx)
+			a2 := Select(arr.Args[2], idx)
+			if a1 == a2 {
+				return a1
+			}
+		}
 		break
 	}
 	return P.mk("select", "", vs, []*Term{arr, idx}, nil)
